@@ -32,6 +32,8 @@ func c15Raw(name string) []byte {
 		b = []byte("HTTP/1.1 200 OK\r\nContent-Type: text/plain\r\nTransfer-Encoding: chunked\r\nX-Target: f\r\n\r\n5\r\nhello\r\n6\r\n world\r\n3\r\n!!!\r\n0\r\n\r\n")
 	case "204":
 		b = []byte("HTTP/1.1 204 No Content\r\nX-Target: f\r\n\r\n")
+	case "hints":
+		b = []byte("HTTP/1.1 103 Early Hints\r\nLink: </s.css>; rel=preload\r\n\r\nHTTP/1.1 200 OK\r\nContent-Type: text/plain\r\nContent-Length: 5\r\nX-Target: f\r\n\r\nhello")
 	case "big":
 		b = append([]byte("HTTP/1.1 200 OK\r\nContent-Type: application/octet-stream\r\nContent-Length: 102400\r\nX-Target: f\r\n\r\n"), bytes.Repeat([]byte("Z"), 102400)...)
 	}
@@ -39,7 +41,22 @@ func c15Raw(name string) []byte {
 	return b
 }
 
-func hdrEnd(raw []byte) int { return bytes.Index(raw, []byte("\r\n\r\n")) + 4 }
+// hdrEnd is the offset at which the header block of the FINAL response ends (informational 1xx blocks before it are
+// part of the header phase: a target failing after `103 Early Hints` has not answered yet).
+func hdrEnd(raw []byte) int {
+	off := 0
+	for {
+		i := bytes.Index(raw[off:], []byte("\r\n\r\n"))
+		if i < 0 {
+			return len(raw)
+		}
+		informational := bytes.HasPrefix(raw[off:], []byte("HTTP/1.1 1"))
+		off += i + 4
+		if !informational {
+			return off
+		}
+	}
+}
 
 type c15svc struct {
 	reqBuf, respBuf bool
@@ -345,7 +362,7 @@ func c15Cases(tier string) []ECase {
 		cases = append(cases, ECase{Name: in.name(), Class: fmt.Sprintf("%s %s %s svc=%d", in.resp, in.fault, cls, in.svc), Run: c15Run(in)})
 	}
 	for si := range c15Services {
-		for _, rn := range []string{"cl", "chunked", "204", "big"} {
+		for _, rn := range []string{"cl", "chunked", "204", "big", "hints"} {
 			raw := c15Raw(rn)
 			he := hdrEnd(raw)
 			for _, k := range c15Offsets(raw, tier) {
@@ -385,7 +402,7 @@ func checkC15(t *testing.T, job *Job, res *Result) {
 		tier = job.Replay.Tier
 	}
 	res.Engine = "F"
-	res.Rule = "fault points: for 4 scripted responses (Content-Length body, 3-chunk body, 204, 100kB body) EVERY byte offset of the header block (and chunk boundaries +-1, strided body offsets; all offsets of the small responses in thorough) x {close, stall forever, garbage} (after the header block: close only), dial refused, first byte just before/after the target timeout, a fault after a delay, a fault while pause/stop is draining the target, silence after redeploys onto the same address with other target timeouts; x request/response buffering {none, req, resp, both} x error pages {built-in, custom 502/504, custom without them}; each fault followed by a good request; oracle: 502/504 with the right page at the exact virtual time, or a visibly incomplete response (handler abort / short body), never a complete-looking 200; in-flight table empty afterwards"
+	res.Rule = "fault points: for 5 scripted responses (Content-Length body, 3-chunk body, 204, 100kB body, 103 Early Hints before the final response) EVERY byte offset of the header block (and chunk boundaries +-1, strided body offsets; all offsets of the small responses in thorough) x {close, stall forever, garbage} (after the header block: close only), dial refused, first byte just before/after the target timeout, a fault after a delay, a fault while pause/stop is draining the target, silence after redeploys onto the same address with other target timeouts; x request/response buffering {none, req, resp, both} x error pages {built-in, custom 502/504, custom without them}; each fault followed by a good request; oracle: 502/504 with the right page at the exact virtual time, or a visibly incomplete response (handler abort / short body), never a complete-looking 200; in-flight table empty afterwards"
 	res.Bounds = "see rule"
 	runE(t, job, res, &ESpec{Prop: "C15", Setup: c15Setup, Cases: c15Cases(tier), Batch: 150})
 }
